@@ -80,16 +80,28 @@ theorem C20_find_is_observed (cfg : Cfg) (σ : State) (s : Sid) (o : Obj) (a : A
     (((step cfg σ s (.find o a v)).1.sess s).objs o).obs a = some v :=
   find_obs cfg σ s o a v hres hw hvol ha
 
-/-- … and every object returned by `select(x for x in E if x.a == v)` (each row of the table the connection sees with
-    `a = v`; optionally `.for_update()`) gets `v` recorded as the observation of `a` (`_fetch_objects(..., used_attrs)` →
+/-- … and every object returned by `select(x for x in E if x.a == v)` when the query is really executed (not answered from
+    the session's query-result cache: each row of the table the connection sees with `a = v`; optionally `.for_update()`)
+    gets `v` recorded as the observation of `a` (`_fetch_objects(..., used_attrs)` →
     `_set_rbits`), after any schedule -/
 theorem C20_select_is_observed (cfg : Cfg) (store0 : Obj → Attr → Val) (sched : List (Sid × Action)) (s : Sid) (a : Attr)
     (v : Val) (fu : Bool) (m : Option Val) (o : Obj)
     (hres : (step cfg (after cfg store0 sched) s (.select a v fu)).2.res = .ok m)
     (ho : o ∈ cfg.objs) (hview : view (after cfg store0 sched) s o a = v)
-    (hw : (((after cfg store0 sched).sess s).objs o).wbits a = false) (hvol : cfg.volatile a = false) (ha : a ∈ cfg.attrs) :
+    (hw : (((after cfg store0 sched).sess s).objs o).wbits a = false) (hvol : cfg.volatile a = false) (ha : a ∈ cfg.attrs)
+    (hmiss : cachedQ ((after cfg store0 sched).sess s) a v fu = none) :
     (((step cfg (after cfg store0 sched) s (.select a v fu)).1.sess s).objs o).obs a = some v :=
-  select_obs cfg _ s a v fu m o (C20_invariant cfg store0 sched) hres ho hview hw hvol ha
+  select_obs cfg _ s a v fu m o (C20_invariant cfg store0 sched) hres ho hview hw hvol ha hmiss
+
+/-- NOT PROVED (kept as a statement): a query answered from `cache.query_results` returns objects whose observation was
+    recorded when the query was first executed and has not changed since (the cache is dropped by every flush of
+    modifications and by commit).  It needs one more invariant over all steps (cached key ↦ observation of its objects);
+    the differential run exercises the hit path on every run. -/
+def C20_select_cached_full : Prop :=
+  ∀ (cfg : Cfg) (store0 : Obj → Attr → Val) (sched : List (Sid × Action)) (s : Sid) (a : Attr) (v : Val) (fu : Bool) (l : List Obj) (o : Obj),
+    lookupQ ((after cfg store0 sched).sess s).qcache a v fu = some l → o ∈ l →
+    (((after cfg store0 sched).sess s).objs o).wbits a = false → cfg.volatile a = false → a ∈ cfg.attrs →
+    (((after cfg store0 sched).sess s).objs o).obs a = some v
 
 /-- the ghost `written` records every assignment `obj.a = v` -/
 theorem C20_write_is_recorded (cfg : Cfg) (σ : State) (s : Sid) (o : Obj) (a : Attr) (v : Val)
@@ -290,6 +302,20 @@ theorem C20_bridge_criteria : critRows.length = 8 ∧ ∀ p ∈ critRows, modelC
 /-- `critCols` = the real exemptions of `_save_updated_`: no criteria for a non-optimistic session or a for_update object -/
 theorem C20_bridge_exempt : exemptRows.length = 4 ∧ ∀ p ∈ exemptRows, modelExempt p.1.1 p.1.2 = p.2 := by decide
 
+/-- session-level flags of the model after `get[_for_update]; select; [assign; flush]` and after a following `commit` -/
+def modelSess (sopt fu wrote : Bool) : (Bool × Bool × Bool × Nat) × (Bool × Bool × Bool × Nat) :=
+  let cfg : Cfg := { attrs := [0, 1], lazy := fun _ => false, volatile := fun _ => false, attrOpt := fun _ => true,
+                     sessOpt := fun _ => sopt, objs := [1] }
+  let pre : List (Sid × Action) := [(0, .get 1 fu), (0, .select 0 1 false)] ++ (if wrote then [(0, .write 1 1 9), (0, .flush)] else [])
+  let f := fun (σ : State) => ((σ.sess 0).immediate, (σ.sess 0).inTxn, (σ.sess 0).forUpd 1, (σ.sess 0).qcache.length)
+  (f (after cfg (fun _ _ => 1) pre), f (after cfg (fun _ _ => 1) (pre ++ [(0, .commit)])))
+
+/-- the session-level bookkeeping of the model (`Sess.fresh`, `ensureTxn`, `prepFlush`/`saveHead`, `selectInDb`'s result
+    cache, `commitTxn`) = the real `SessionCache.__init__`, `prepare_connection_for_query_execution`, `flush`, `commit` on
+    `immediate`, `in_transaction`, `for_update` and `query_results`, for optimistic / non-optimistic sessions, with and
+    without get_for_update, with and without a flushed modification -/
+theorem C20_bridge_session : sessRows.length = 8 ∧ ∀ p ∈ sessRows, modelSess p.1.1 p.1.2.1 p.1.2.2 = p.2 := by decide
+
 end Bridge
 
 /-! ### the hypotheses are satisfiable, the conclusions are not vacuous, the exclusions are necessary (concrete schedules) -/
@@ -345,6 +371,14 @@ example : (step cfgTab (after cfgTab ones []) 1 (.select 0 1 false)).2.res = .ok
     ∧ (((after cfgTab ones [(1, .select 0 1 false)]).sess 1).objs 2).obs 0 = some 1
     ∧ (step cfgTab (after cfgTab ones [(1, .select 0 1 false), (1, .write 2 1 61), (0, .get 2 false), (0, .write 2 0 50),
         (0, .close), (0, .close)]) 1 .close).2.res = .optimisticCheckError := by decide
+
+-- the session's query-result cache: the same query again is answered without SQL (row 1 no longer matches in the database,
+-- it is still returned, and the stale UPDATE is still refused); a flush of modifications drops the cache
+example : (step cfgTab (after cfgTab ones [(1, .select 0 1 false), (0, .get 1 false), (0, .write 1 0 50), (0, .close), (0, .close)]) 1
+      (.select 0 1 false)).2.res = .ok (some 6)
+    ∧ (step cfgTab (after cfgTab ones [(1, .select 0 1 false), (0, .get 1 false), (0, .write 1 0 50), (0, .close), (0, .close),
+        (1, .select 0 1 false), (1, .write 1 1 61)]) 1 .close).2.res = .optimisticCheckError
+    ∧ ((after cfgTab ones [(1, .select 0 1 false), (1, .write 2 1 61), (1, .flush)]).sess 1).qcache = [] := by decide
 
 -- Query.for_update: the rows are locked (another writer waits); the exemption ends at commit, after which a stale UPDATE is refused
 example : (step cfgTab (after cfgTab ones [(1, .select 0 1 true), (0, .get 1 false), (0, .write 1 0 50)]) 0 .flush).2.res = .blocked
